@@ -116,7 +116,9 @@ def rw_rename(root: File, rng: random.Random, pool: NamePool) -> Optional[str]:
     else:
         k = rng.randrange(len(d.members))
         old = d.members[k][0]
-        d.members[k] = (upper_snake(d.name) + "_" + pool.upper(), d.members[k][1])
+        taken = {n for n, _ in d.members}
+        new = next(n for n in (upper_snake(d.name) + "_" + pool.upper() for _ in range(100)) if n not in taken)
+        d.members[k] = (new, d.members[k][1])
     return f"rename {kind} {old}"
 
 
